@@ -22,7 +22,7 @@ FAMS = [("trk", "full", "mvz1"), ("tnd", "full", "mvz1"), ("dto", "full", "mvz0"
         ("over", "plain", "mvz0"), ("int", "plain", "mvz0"), ("ks", "plain", "mvz0"), ("dbl", "plain", "mvz0")]
 # a payload code is 4 * key + shadow: the payload's comparison operators see the key only.  The classic families are fed
 # shadow-free codes (4 * v); ks ({key, shadow} compared on key) and dbl (+0.0 / -0.0) also get codes with shadows.
-VALUE_FIELD = {"cv": 3, "mk": 3, "av": 2, "em": 2, "vo": 2}
+VALUE_FIELD = {"cv": 3, "mk": 3, "av": 2, "em": 2, "vo": 2, "sv": 2}
 
 
 def recode(case, f):
@@ -53,9 +53,30 @@ def oracle_O(ops, mvz, stats=None):
 
     res = []
     env = {}                            # getEnvVar.h: variable name -> string id (0 = the empty string)
+    pv = {}                             # named payload variables of the client (arguments of value operations)
     for tok in ops:
         f = tok.split(":")
         c = f[0]
+        if c == "sv":
+            pv[int(f[1])] = int(f[2]); res.append(("ok", dump())); continue
+        if c == "vr":
+            res.append(("val=%s" % (pv[int(f[1])] if int(f[1]) in pv else "none"), dump())); continue
+        if c == "vu":
+            # member (0 Optional(const T&), 1 emplace, 2 operator=(U&&), 3 make_optional) applied to slot with variable k passed as
+            # category 0 prvalue copy / 1 xvalue / 2 const lvalue / 3 non-const lvalue: only an xvalue handed to a forwarding
+            # member (emplace, make_optional) may end moved-from; lvalues are never modified
+            m, slot, k, cat = int(f[1]), int(f[2]), int(f[4]), int(f[5])
+            out = "ok"
+            if k not in pv: out = "ill"
+            elif m in (0, 3):
+                if st[slot] is not None: out = "ill"
+                else: st[slot] = [False, pv[k]]
+            else:
+                if st[slot] is None or st[slot][0]: out = "ill"
+                else: st[slot][1] = pv[k]
+            if out == "ok" and m in (1, 3) and cat == 1 and mvz: pv[k] = 0
+            if stats is not None and out == "ok": stats[("vu%d" % m, "cat%d" % cat, "")] = stats.get(("vu%d" % m, "cat%d" % cat, ""), 0) + 1
+            res.append((out, dump())); continue
         if c in ("es", "eu"):
             if c == "es": env[int(f[1])] = int(f[2])
             else: env.pop(int(f[1]), None)
@@ -99,6 +120,13 @@ def oracle_O(ops, mvz, stats=None):
                 x = wj[1]
                 wi[1] = x
                 if mv and not conv: wj[1] = moved(x)       # operator=(Optional<U>&&) copies
+        elif c in ("adr", "edr"):
+            # the argument is the payload of another wrapper ( *j, or std::move( *j ) when f[3] == 1 )
+            j = int(f[2]); wj = st[j]
+            if wj is None or wi[0] != wj[0] or wj[1] is None or (c == "edr" and i == j): out = "ill"
+            else:
+                wi[1] = wj[1]
+                if c == "edr" and f[3] == "1": wj[1] = moved(wj[1])     # only emplace forwards; value() = rhs copies
         elif c == "em": wi[1] = int(f[2])
         elif c == "rs": wi[1] = None
         elif c == "hv": out = "true" if wi[1] is not None else "false"
@@ -244,8 +272,10 @@ def check_A(ops, line):
 ENV_SIDS = {0: [0, 0, 1, 2, 3, 5, 9], 1: [0, 0, 1, 1, 2, 3, 6], 2: [0, 0, 4, 8, 12, 20]}
 
 
-def gen_O(r, maxlen, env=None):
-    """env: None, or the getEnvVar kind (0 int, 1 float, 2 string) whose operations are mixed into the history"""
+def gen_O(r, maxlen, env=None, vals=False):
+    """env: None, or the getEnvVar kind (0 int, 1 float, 2 string) whose operations are mixed into the history;
+    vals: mix in value operations whose argument is a named variable / another wrapper's payload, in every value category"""
+    vset = set()
     alive = [None] * NS            # None or isU
     eng = [False] * NS             # generator's own guess, only used to bias towards interesting sources
     ops = []
@@ -254,6 +284,30 @@ def gen_O(r, maxlen, env=None):
         i = r.randrange(NS)
         v = r.choice([0] + list(range(1, 100)) * 3) if r.random() < 0.1 else r.randint(1, 99)
         others = [j for j in range(NS) if alive[j] is not None]
+        if vals and r.random() < 0.30:
+            c = r.random()
+            k = r.randrange(2)
+            tw = [j for j in range(NS) if alive[j] is False]          # living wrappers of payload type T
+            free = [j for j in range(NS) if alive[j] is None]
+            if c < 0.22 or not vset:
+                ops.append("sv:%d:%d" % (k, v)); vset.add(k)
+            elif c < 0.40:
+                ops.append("vr:%d" % r.choice(sorted(vset)))
+            elif c < 0.55 and free:
+                j = r.choice(free)
+                ops.append("vu:%d:%d:0:%d:%d" % (r.choice([0, 3]), j, r.choice(sorted(vset)), r.randrange(4)))
+                alive[j] = False; eng[j] = True
+            elif c < 0.80 and tw:
+                j = r.choice(tw)
+                ops.append("vu:%d:%d:0:%d:%d" % (r.choice([1, 2]), j, r.choice(sorted(vset)), r.randrange(4))); eng[j] = True
+                if r.random() < 0.6: ops.append("vr:%d" % r.choice(sorted(vset)))
+            else:
+                same = [(a_, b_) for a_ in range(NS) for b_ in range(NS) if alive[a_] is not None and alive[a_] == alive[b_] and eng[b_]]
+                if same:
+                    a_, b_ = r.choice(same)
+                    ops.append("%s:%d:%d:%d" % (r.choice(["adr", "edr"]), a_, b_, r.randrange(2))); eng[a_] = True
+                    ops.append("val:%d" % b_)
+            continue
         if env is not None and r.random() < 0.18:
             n = r.randrange(3)
             ops.append("es:%d:%d" % (n, r.choice(ENV_SIDS[env])) if r.random() < 0.7 else "eu:%d" % n)
@@ -328,6 +382,12 @@ def alpha_env(kind):
 # move-only payload: the members of Optional that can be instantiated without copying the payload
 ALPHA_MOV = ["cd:0:0", "mk:0:0:4", "mk:1:0:9", "cd:1:0", "em:0:12", "em:1:6", "cm:2:0", "cm:2:1", "cm:3:2", "am:0:1", "am:1:0", "am:0:2",
              "am:2:0", "rs:0", "rs:1", "d:0", "d:2", "hv:0", "val:0", "val:1", "val:2", "eq:0:1", "lt:0:2", "ne:1:1", "str:0"]
+
+
+# value operations with an observable argument (named variable 0; the payload of wrapper 1), each value category
+ALPHA_VAL = ["sv:0:5", "sv:0:9", "cd:0:0", "cv:1:0:7", "vu:0:2:0:0:3", "vu:0:2:0:0:1", "vu:3:2:0:0:3", "vu:3:2:0:0:1", "vu:1:0:0:0:3",
+             "vu:1:0:0:0:1", "vu:1:0:0:0:2", "vu:2:0:0:0:3", "vu:2:0:0:0:1", "vu:2:1:0:0:0", "vr:0", "adr:0:1:0", "adr:0:1:1", "edr:0:1:0",
+             "edr:0:1:1", "val:1", "val:0", "d:2", "adr:1:1:0"]
 
 
 def exhaustive_O(n1, n2):
@@ -578,11 +638,11 @@ COVER = {
     "Optional<T>::template<U> Optional(const Optional<U> &)": dict(thm="MCtorConvCopy; optional_copies_independent", ops=["O:xc"]),
     "Optional<T>::Optional(Optional<T> &&)": dict(thm="MCtorMove; optional_move_ctor_constructs", ops=["O:cm"]),
     "Optional<T>::template<U> Optional(Optional<U> &&)": dict(thm="MCtorConvMove; optional_move_ctor_constructs", ops=["O:xm"]),
-    "Optional<T>::Optional(const T &)": dict(thm="MCtorValue; optional_last_op_gives", ops=["O:cv"]),
+    "Optional<T>::Optional(const T &)": dict(thm="MCtorValue; optional_last_op_gives, value_copying_members_never_move", ops=["O:cv", "O:vu"]),
     "Optional<T>::~Optional()": dict(thm="MDtor; optional_destroyed_exactly_once, optional_closed_clean", ops=["O:d", "O:histories"]),
     "Optional<T>::Optional<T> & operator=(const Optional<T> &)": dict(thm="MAssignCopy; optional_assign_from_empty, optional_assign_copy_exact, optional_self_assign", ops=["O:ac"]),
     "Optional<T>::Optional<T> & operator=(Optional<T> &&)": dict(thm="MAssignMove; optional_assign_from_empty", ops=["O:am"]),
-    "Optional<T>::template<U> Optional<T> & operator=(U &&)": dict(thm="MAssignValue; optional_last_op_gives", ops=["O:av"]),
+    "Optional<T>::template<U> Optional<T> & operator=(U &&)": dict(thm="MAssignValue (OAssign SVal: copies whatever the category); optional_last_op_gives, value_copying_members_never_move, value_deref_source_unchanged, source_value_assign_never_moves", ops=["O:av", "O:vu", "O:adr"]),
     "Optional<T>::template<U> Optional<T> & operator=(const Optional<U> &)": dict(thm="MAssignConvCopy; optional_assign_from_empty", ops=["O:xac"]),
     "Optional<T>::template<U> Optional<T> & operator=(Optional<U> &&)": dict(thm="MAssignConvMove (copies the payload); optional_assign_from_empty", ops=["O:xam"]),
     "Optional<T>::const T * operator->() const": dict(thm="facts_optional_accessors (om_deref_value); optional_observers", ops=["O:val", "O:steps"]),
@@ -595,7 +655,7 @@ COVER = {
     "Optional<T>::T & value()": dict(thm="facts_optional_accessors (om_value_storage); every OAssign/ODtor micro-op goes through it", ops=["O:val", "O:em"]),
     "Optional<T>::template<U> T value_or(U &&) const": dict(thm="facts_optional_accessors (om_value_or_guarded); optional_observers", ops=["O:vo"]),
     "Optional<T>::void reset()": dict(thm="MReset; optional_destroyed_exactly_once", ops=["O:rs"]),
-    "Optional<T>::template<...Args> T & emplace(Args &&...)": dict(thm="MEmplace; optional_last_op_gives", ops=["O:em", "O:cv", "O:mk"]),
+    "Optional<T>::template<...Args> T & emplace(Args &&...)": dict(thm="MEmplace (ONew SValFwd); optional_last_op_gives, value_lvalue_source_unchanged, source_emplace_forwards", ops=["O:em", "O:cv", "O:mk", "O:vu", "O:edr"]),
     "Optional<T>::std::string toString() const": dict(thm="facts_optional_accessors (om_tostring_const); optional_print_total", ops=["O:str"]),
     "Optional<T>::void default_construct_storage_if_needed()": dict(thm="MDcsin (private helper of every assignment)", ops=["O:av", "O:ac"]),
     "Optional<T>::storage : alignas std::array<rkcommon::byte_t, sizeof(T)>": dict(thm="facts_optional_layout, optional_aligned_from_source, source_optional_storage_aligned", ops=["O:steps", "facts"]),
@@ -742,6 +802,11 @@ def run(ctx):
     o_exh = list(exhaustive_O(3, ctx.pick(2, 3)))
     a_rand = [gen_A(r, 30) for _ in range(ctx.pick(2500, 25000))]
     a_exh = list(exhaustive_A(ctx.pick(3, 4)))
+    rv = ctx.rng("values")
+    val_cases = [recode(c, lambda v: 4 * v) for c in
+                 [gen_O(rv, 30, vals=True) for _ in range(ctx.pick(1500, 12000))] +
+                 ["O sv:0:5 cv:1:0:7 cd:0:0 " + " ".join(t) for n in range(1, 3) for t in itertools.product(ALPHA_VAL, repeat=n)] +
+                 ["O " + " ".join(t) for t in itertools.product(ALPHA_VAL, repeat=3)]]
     o_rand_raw = o_rand
     o_cases = [recode(c, lambda v: 4 * v) for c in [c for c in corpus if c[0] == "O"] + o_rand + o_exh]
     o_rand = o_cases[len([c for c in corpus if c[0] == "O"]):][:len(o_rand_raw)]
@@ -814,6 +879,16 @@ def run(ctx):
         ctx.broken.append("generator coverage: transfer paths never exercised: " + ", ".join(missing))
     ctx.cov["op_histogram"] = hist
     ctx.cov["transfer_paths"] = paths
+    vstat = {}
+    for c in val_cases:
+        oracle_O(c.split()[1:], True, vstat)
+        t = [x.split(":")[0] for x in c.split()[1:]]
+        if "vu" in t and "vr" in t or "adr" in t or "edr" in t:
+            ctx.nontriv(c)
+    ctx.cov["value_category_uses"] = {"%s %s" % (k[0], k[1]): n for k, n in vstat.items() if k[0].startswith("vu")}
+    missing_v = ["vu%d cat%d" % (m, c_) for m in range(4) for c_ in range(4) if ("vu%d" % m, "cat%d" % c_, "") not in vstat]
+    if missing_v:
+        ctx.broken.append("generator coverage: value member x category never exercised: " + ", ".join(missing_v))
 
     by_mode = {}
     for fam, form, mz in FAMS:
@@ -825,6 +900,16 @@ def run(ctx):
             impls.append(("Optional<%s>@odd-offset" % fam, exe_odd, [fam]))
         mism, crashes, mlines = vlib.differential(ctx, o_cases, model, impls, model_args=[form, mz, "fixed", pk])
         tally(counters, o_cases, len(impls), "O")
+        # value operations with an observable argument in every value category (aligned placement)
+        vimpls = [("Optional<%s>/value-categories" % fam, exe, [fam]) for fam in fams]
+        # (payloads whose move is a copy cannot show a wrongly moved-from argument: they get the random part only)
+        vcs = val_cases if mz == "mvz1" or ctx.thorough() else val_cases[:ctx.pick(1500, 12000)]
+        vm, vc, _ = vlib.differential(ctx, vcs, model, vimpls, model_args=[form, mz, "fixed", pk])
+        tally(counters, vcs, len(vimpls), "O")
+        ctx.count(len(vcs) * len(vimpls))
+        for label, ex, args in vimpls:
+            judge(ctx, "Optional history", vcs, ex, args, ("full" if pk == "pk=full" else "events") if form == "full" else False,
+                  mz == "mvz1", vm, vc, label)
         ctx.count(len(o_cases) * len(impls))
         ctx.cov["mismatches_%s_%s_%s" % (form, mz, pk[3:])] = len(mism)
         for label, ex, args in impls:
